@@ -26,8 +26,11 @@ CFG = {
              "args_os().len() == argc, yielded count == argc, every element byte-identical; args() Ok(str) iff the argument is UTF-8, same bytes; "
              "var_unix(k)/var(k) == value of the FIRST entry whose bytes before its first '=' equal k, Missing otherwise, NotUnicode (var) iff that "
              "value is not UTF-8; get_uid/get_gid == AT_UID/AT_GID of /proc/self/auxv read by the probe (and the driver's real ids), get_random == "
-             "the 16 bytes at the AT_RANDOM address, get_exec_fn == string at AT_EXECFN == executed path; MonotonicInstant::now() lies between "
-             "two clock_gettime(CLOCK_MONOTONIC) system calls issued before and after it; a probe killed by a signal / exiting non-zero / "
+             "the 16 bytes at the AT_RANDOM address, get_exec_fn == string at AT_EXECFN == executed path (when the driver is root, 3 cases in 4 start the "
+             "probe through fork+setgid+setuid+execve under generated ids so that AT_UID != AT_GID != 0); MonotonicInstant::now() lies between "
+             "two clock_gettime(CLOCK_MONOTONIC) system calls issued before and after it; static-PIE builds: the driver reads the executable's "
+             "R_X86_64_RELATIVE table and the probe echoes the word at every slot, each slot in the RELRO part (and the compiler's DW.ref.* "
+             "pointers) must hold load base + addend; a probe killed by a signal / exiting non-zero / "
              "truncating its output fails the case with the build mode in the signature. Sub-checks lookup-var and lookup-var-unix: 1..5 entries, "
              "1..3 keys derived from those entries, one build, only that function's results judged (they run first; a proper-prefix mismatch "
              "they report or that is a known finding is counted, not re-reported, by startup so that the search continues behind it). "
@@ -39,13 +42,15 @@ CFG = {
         "keys are non-empty and contain neither '=' nor NUL (the domain std::env::var accepts without error)",
         "var_unix on a non-UTF-8 value of the right entry may return the bytes or NotUnicode (its doc comment is shared with var)",
         "a probe that exceeds 20 s is killed and counted inconclusive, never a violation",
+        "relocation slots outside PT_GNU_RELRO (other than DW.ref.*) may be reassigned by the program and are not judged",
+        "uid/gid other than the driver's own are only exercised when the driver runs as root",
     ],
     "required_classes": [
         "startup:key-is-proper-extension-of-a-name", "startup:key-is-proper-prefix-of-a-name", "startup:duplicate-name",
         "startup:entry-without-equals", "startup:empty-value", "startup:value-with-equals", "startup:non-utf8-argument",
         "startup:empty-argument", "startup:long-argument", "startup:non-utf8-value", "startup:empty-environment",
         "startup:build-dyn-debug", "startup:build-dyn-release", "startup:build-static-debug", "startup:build-static-release",
-        "startup:build-pie-debug", "startup:build-pie-release",
+        "startup:build-pie-debug", "startup:build-pie-release", "startup:relocation-slots-inspected", "startup:many-arguments", "startup:large-environment",
         "lookup-var:key-is-proper-extension-of-a-name", "lookup-var-unix:key-is-proper-extension-of-a-name",
     ],
     "level_text": "exploration: seeded random sampling of (argv, envp, keys, build); no exhaustive sub-domain",
